@@ -38,6 +38,7 @@ from .rule_db import RuleDB
 from .rule_db.base import RuleDBAbstract
 from .specification import CombinatorialSpecification
 from .strategies import AbstractStrategy, StrategyFactory, StrategyPack
+from .strategies.strategy import EmptyStrategy
 from .strategies.rule import AbstractRule
 from .utils import (
     cssiteratortimer,
@@ -117,6 +118,10 @@ class CombinatorialSpecificationSearcher(Generic[CombinatorialClassType]):
         self.tried_to_verify: Set[int] = set()
         self.symmetry_expanded: Set[int] = set()
         self.inferral_expanded: Set[int] = set()
+        if self.classdb.is_empty(start_class, self.start_label):
+            # Strategies are only meant to be applied to non-empty classes.
+            self.classqueue.set_stop_yielding(self.start_label)
+            self.add_rule(self.start_label, (), EmptyStrategy()(start_class))
         self.try_verify(start_class, self.start_label)
         if self.symmetries:
             self._symmetry_expand(start_class, self.start_label)
